@@ -118,10 +118,12 @@ type Specs struct {
 	FunOrder  []string
 	ValueStructs map[string]bool
 	ConstGlobals map[string]bool
+	// Guards: "pkg.Type.field" -> name of the mutex field of the same struct that must be held to access it
+	Guards map[string]string
 }
 
 func newSpecs() *Specs {
-	return &Specs{Contracts: map[string]*Contract{}, Funs: map[string]*SpecFun{}, ValueStructs: map[string]bool{}, ConstGlobals: map[string]bool{}}
+	return &Specs{Contracts: map[string]*Contract{}, Funs: map[string]*SpecFun{}, ValueStructs: map[string]bool{}, ConstGlobals: map[string]bool{}, Guards: map[string]string{}}
 }
 
 // ---------------------------------------------------------------------------
@@ -597,7 +599,7 @@ func parseSort(src, pos string) (s string, err error) {
 var clauseKeywords = map[string]bool{
 	"func": true, "lemma": true, "axiom": true, "ghost": true, "specfun": true, "mode": true,
 	"requires": true, "ensures": true, "assigns": true, "loop": true, "trusted": true, "pure": true,
-	"props": true, "let": true, "valuestruct": true, "constglobal": true, "canary": true, "nobody": true,
+	"props": true, "let": true, "valuestruct": true, "constglobal": true, "guard": true, "canary": true, "nobody": true,
 	"hint": true, "drop": true, "end": true, "dead": true, "option": true,
 }
 
@@ -739,6 +741,22 @@ func (sp *Specs) loadFile(path string, defaultPkg string) error {
 		case "constglobal":
 			for _, n := range strings.Split(l.rest, ",") {
 				sp.ConstGlobals[strings.TrimSpace(n)] = true
+			}
+		case "guard":
+			// guard pkg.Type.field[,field] by lockField
+			parts := strings.Split(l.rest, " by ")
+			if len(parts) != 2 {
+				return fmt.Errorf("%s: guard: expected `pkg.Type.field by lockField`", pos)
+			}
+			fs := strings.Split(parts[0], ",")
+			first := strings.TrimSpace(fs[0])
+			i := strings.LastIndex(first, ".")
+			if i < 0 {
+				return fmt.Errorf("%s: guard: expected pkg.Type.field", pos)
+			}
+			sp.Guards[first] = strings.TrimSpace(parts[1])
+			for _, f := range fs[1:] {
+				sp.Guards[first[:i+1]+strings.TrimSpace(f)] = strings.TrimSpace(parts[1])
 			}
 		case "func":
 			c, err := parseFuncHeader(l.rest, defaultPkg, pos)
